@@ -14,7 +14,8 @@ OBS = {
                contract="strip_shebang_line returns (characters, bytes) of the #! line; after TokenStream::new token_start == token_end == bytes consumed by the character iterator, on a char boundary inside the text")
        for n in ["shebang_ascii_contract", "shebang_non_ascii_contract", "shebang_wide_contract"]},
     "lexer_eat_contract": dict(kind="bounded", bound=B, functions=["Lexer::eat", "Lexer::new"], contract="token_end advances by the encoded length of each consumed character and stays <= len"),
-    "ident_buffer_contract": dict(kind="bounded", bound=B, functions=["IdentBuffer::new", "IdentBuffer::push", "IdentBuffer::push_escape"],
+    "ident_buffer_wide_contract": dict(kind="bounded", bound="concrete 3- and 4-byte characters before the escape", functions=["IdentBuffer::push", "IdentBuffer::push_escape"], contract="same with wide characters"),
+    "ident_buffer_contract": dict(kind="bounded", bound="concrete ASCII / 2-byte characters before the escape", functions=["IdentBuffer::new", "IdentBuffer::push", "IdentBuffer::push_escape"],
                                   contract="characters pushed before the first escape are replayed exactly once buffering starts: the identifier reads back as written"),
 }
 
